@@ -1,25 +1,242 @@
 (* Properties/C16.v — The ontology graph stays acyclic, exact and free of dangling edges.
-   (work in progress: witnesses first) *)
-From stdpp Require Import gmap.
+   Only statements, closed by [exact]/short glue, each followed by Print Assumptions.
+
+   Vocabulary (Core/OntologyProofs.v): a store [st] denotes the digraph whose vertices are the
+   resources ([has st i]) and whose edges are the stored relationships of any type
+   ([edge st a b]); [reach st] is the transitive closure, [acyclic st] its irreflexivity.
+   [wf st] = keys are the GorpKeys of the stored values, every stored id is [good_id], no edge
+   dangles, the graph is acyclic.  [good_id i]: non-empty type without ':' and no "->" inside
+   type:key.  The theorems are stated for good identifiers (suffix _partial): identifiers that
+   are prefixes / suffixes of one another (a:1, a:10, a:21, ab:1, a:1-, a:>1 ...) are all good;
+   the excluded ones are exactly those containing the key separator, for which the
+   C16_sep_*_refuted theorems show each clause failing (known finding F20). *)
+From stdpp Require Import gmap relations.
 From Coq Require Import NArith.
-From Synnax Require Import Core.Ontology.
+From Synnax Require Import Core.Ontology Core.OntologyStr Core.OntologyProofs.
 Local Open Scope N_scope.
 
+(* (1) At all times — after every history of define/delete resource, define (single,
+   one-to-many) / delete relationship inside committed and aborted transactions — the committed
+   graph and the open transaction's view are acyclic and free of dangling edges. *)
+Theorem C16_invariant_partial : forall ops,
+  Forall good_op ops ->
+  let s := run fixed init ops in
+  (acyclic (s_db s) /\ (forall a b, edge (s_db s) a b -> has (s_db s) a /\ has (s_db s) b)) /\
+  (acyclic (cur s) /\ (forall a b, edge (cur s) a b -> has (cur s) a /\ has (cur s) b)).
+Proof.
+  intros ops Hops s.
+  pose proof (run_wf fixed ops init eq_refl eq_refl wf_sys_init Hops) as Hs.
+  pose proof (wf_cur _ Hs) as Hc. destruct Hs as [Hdb _]. fold s in Hdb, Hc.
+  split; (split; [apply wf_acyclic; auto|intros a b; apply edge_has; auto]).
+Qed.
+Print Assumptions C16_invariant_partial.
+
+Theorem C16_reachable_wf_partial : forall ops,
+  Forall good_op ops -> wf_sys (run fixed init ops).
+Proof. intros ops H. exact (run_wf fixed ops init eq_refl eq_refl wf_sys_init H). Qed.
+Print Assumptions C16_reachable_wf_partial.
+
+(* (2) DefineRelationship succeeds exactly when both resources exist and the new edge closes
+   no cycle (t does not reach f, reflexively); it is then a no-op if the relationship exists
+   and otherwise adds exactly that relationship; a refusal changes nothing. *)
+Theorem C16_define_iff_partial : forall st f ty t,
+  wf st -> good_id f -> good_id t -> good_ty ty ->
+  let r := define_relationship fixed st f ty t in
+  (r.2 = EOk <-> has st f /\ has st t /\ ~ rtc (edge st) t f) /\
+  (r.2 = EOk -> r.1 = if has_rel st (Rel f ty t) then st else add_rel st (Rel f ty t)) /\
+  (r.2 <> EOk -> r.1 = st /\ (r.2 = ENotFound \/ r.2 = ECyclic)) /\
+  wf r.1.
+Proof.
+  intros st f ty t Hwf Hf Ht Hty r.
+  pose proof (define_relationship_wf fixed st f ty t eq_refl eq_refl Hwf Hf Ht Hty) as Hw.
+  destruct (define_relationship_spec fixed st f ty t eq_refl eq_refl Hwf Hf Ht Hty)
+    as [[Hl E]|[Hn (e & E & He)]]; subst r; rewrite E in *; simpl.
+  - split; [split; [intros _; exact Hl|auto]|].
+    split; [intros _; reflexivity|]. split; [intros H; congruence|exact Hw].
+  - assert (e <> EOk) by (destruct He; congruence).
+    split; [split; [intros; congruence|intros Hl; exfalso; exact (Hn Hl)]|].
+    split; [intros; congruence|]. split; [intros _; split; [reflexivity|exact He]|exact Hw].
+Qed.
+Print Assumptions C16_define_iff_partial.
+
+(* the added relationship is the only change to the edge relation *)
+Theorem C16_define_adds_only_partial : forall st r a b,
+  wf st -> good_rel r ->
+  edge (add_rel st r) a b <-> edge st a b \/ (a = r_from r /\ b = r_to r).
+Proof. exact edge_add_rel. Qed.
+Print Assumptions C16_define_adds_only_partial.
+
+(* (2') one-to-many: succeeds exactly when the source and every target exist and no target
+   reaches the source; adds exactly the listed edges. *)
+Theorem C16_define_many_iff_partial : forall st f ty ts,
+  wf st -> good_id f -> good_ty ty -> Forall good_id ts ->
+  let r := define_many fixed st f ty ts in
+  (r.2 = EOk <-> has st f /\ forall t, t ∈ ts -> has st t /\ ~ rtc (edge st) t f) /\
+  (r.2 = EOk -> r.1 = add_rels st f ty ts /\
+                forall x y, edge r.1 x y <-> edge st x y \/ (x = f /\ y ∈ ts)) /\
+  (r.2 <> EOk -> r.1 = st /\ (r.2 = ENotFound \/ r.2 = ECyclic)).
+Proof.
+  intros st f ty ts Hwf Hf Hty Hts r.
+  destruct (define_many_spec fixed st f ty ts eq_refl eq_refl Hwf Hf Hty Hts)
+    as [[Hl E]|[Hn (e & E & He)]]; subst r; rewrite E in *; simpl.
+  - split; [split; [intros _; exact Hl|auto]|]. split; [|congruence].
+    intros _. split; [auto|]. apply add_rels_wf; auto.
+  - assert (e <> EOk) by (destruct He; congruence).
+    split; [split; [congruence|intros Hl; contradiction]|]. split; [congruence|auto].
+Qed.
+Print Assumptions C16_define_many_iff_partial.
+
+(* (3) DeleteResource removes the resource and exactly the relationships touching it. *)
+Theorem C16_delete_cleans_partial : forall st x,
+  wf st -> good_id x ->
+  let st' := (delete_resource st x).1 in
+  o_res st' = delete (id_str x) (o_res st) /\
+  (forall k r, o_rels st' !! k = Some r <->
+               o_rels st !! k = Some r /\ r_from r <> x /\ r_to r <> x) /\
+  (forall a b, edge st' a b -> a <> x /\ b <> x) /\
+  wf st'.
+Proof.
+  intros st x Hwf Hx st'. split; [reflexivity|]. split; [|split].
+  - intros k r. apply delete_resource_rels; auto.
+  - intros a b (k & r & H & <- & <-). apply delete_resource_rels in H; tauto.
+  - apply delete_resource_wf; auto.
+Qed.
+Print Assumptions C16_delete_cleans_partial.
+
+Theorem C16_delete_relationship_exact_partial : forall st f ty t,
+  wf st -> good_rel (Rel f ty t) ->
+  let st' := (delete_relationship st f ty t).1 in
+  o_res st' = o_res st /\
+  (forall k r, o_rels st' !! k = Some r <-> o_rels st !! k = Some r /\ r <> Rel f ty t) /\
+  wf st'.
+Proof.
+  intros st f ty t Hwf Hr st'. split; [reflexivity|]. split.
+  - intros k r. apply delete_relationship_rels; auto.
+  - apply delete_relationship_wf; auto.
+Qed.
+Print Assumptions C16_delete_relationship_exact_partial.
+
+(* (4) Traversals = graph search over the surviving resources: a query from an existing
+   resource through any sequence of parents / children clauses returns exactly the vertices
+   connected by that pattern of "parent" edges, all of them existing resources; from a missing
+   resource it fails with NotFound. *)
+Theorem C16_traversals_partial : forall st x ts,
+  wf st -> good_id x ->
+  (has st x ->
+   exists l, query st x ts = Ok l /\ (forall y, y ∈ l <-> tpath st ts x y) /\ Forall (has st) l) /\
+  (~ has st x -> query st x ts = Err ENotFound).
+Proof.
+  intros st x ts Hwf Hx. split.
+  - apply query_ok; auto.
+  - apply query_missing; auto.
+Qed.
+Print Assumptions C16_traversals_partial.
+
+(* descendants = vertices reachable by one or more edges; the recursion never runs out of
+   fuel |rels|+1 (the Go recursion terminates), never meets a missing resource. *)
+Theorem C16_descendants_partial : forall st x,
+  wf st -> good_id x ->
+  exists l, descendants fixed st x = Ok l /\
+            (forall y, y ∈ l <-> reach st x y) /\ Forall (has st) l.
+Proof.
+  intros st x Hwf Hx.
+  destruct (descendants_ok fixed eq_refl st Hwf x Hx) as (l & E & Hl).
+  exists l. split; [auto|split; [auto|]].
+  apply Forall_forall. intros y Hy. apply Hl in Hy. exact (proj2 (reach_has _ _ _ Hwf Hy)).
+Qed.
+Print Assumptions C16_descendants_partial.
+
+(* (5) transactions: writes inside a transaction do not touch the committed graph, abort
+   drops them, commit publishes exactly the transaction's view. *)
+Theorem C16_transactions : forall c s o st,
+  s_tx s = Some st ->
+  (o <> Commit -> s_db (step c s o).1 = s_db s) /\
+  (step c s Abort).1 = Sys (s_db s) None /\
+  (step c s Commit).1 = Sys st None.
+Proof.
+  intros c s o st E. split; [|split].
+  - intros Hne. pose proof (step_data c s o) as Hd.
+    destruct o; try (rewrite Hd; unfold set_cur; rewrite E; reflexivity); try congruence.
+    + simpl. rewrite E. reflexivity.
+    + reflexivity.
+  - reflexivity.
+  - simpl. rewrite E. reflexivity.
+Qed.
+Print Assumptions C16_transactions.
+
+(* ---- what the pinned upstream code did (findings F10, F11, repaired in /repo) ---- *)
 Definition a1 := Id [97] [49].
 Definition a10 := Id [97] [49; 48].
 Definition a2 := Id [97] [50].
+Definition ab1 := Id [97; 98] [49].
 Definition w_ops := [DefRes a1; DefRes a10; DefRes a2; DefRel a10 s_parent a2].
 
-(* F10: pinned prefix scan without the separator refuses a legal edge as cyclic *)
+(* F10: the prefix scan without the separator takes a:10's edge for a:1's and refuses the
+   legal edge a:2 -> a:1 as cyclic *)
 Theorem C16_f10_prefix_refuted :
   (step pinned (run pinned init w_ops) (DefRel a2 s_parent a1)).2 = ECyclic /\
   (step fixed (run fixed init w_ops) (DefRel a2 s_parent a1)).2 = EOk.
 Proof. vm_compute. auto. Qed.
 Print Assumptions C16_f10_prefix_refuted.
 
-(* F11: pinned code accepts a self edge *)
+(* F11: a self edge is accepted and the next descendants computation does not terminate *)
 Theorem C16_f11_self_edge_refuted :
+  let s := (step pinned (run pinned init w_ops) (DefRel a1 s_parent a1)).1 in
   (step pinned (run pinned init w_ops) (DefRel a1 s_parent a1)).2 = EOk /\
+  descendants pinned (cur s) a1 = Err EFuel /\
   (step fixed (run fixed init w_ops) (DefRel a1 s_parent a1)).2 = ECyclic.
 Proof. vm_compute. auto. Qed.
 Print Assumptions C16_f11_self_edge_refuted.
+
+(* ---- identifiers containing "->" (known finding F20): every clause fails ---- *)
+(* y = a:"1->ab:1", string form "a:1->ab:1" *)
+Definition y_sep := Id [97] [49; 45; 62; 97; 98; 58; 49].
+Definition sep_ops := [DefRes a1; DefRes y_sep; DefRes a2; DefRes ab1].
+
+(* DeleteResource(ab:1) also deletes the relationship a:2 -> y, which does not touch ab:1 *)
+Theorem C16_sep_overdelete_refuted :
+  let s := run fixed init (sep_ops ++ [DefRel a2 s_parent y_sep]) in
+  size (o_rels (cur s)) = 1%nat /\
+  size (o_rels (cur (step fixed s (DelRes ab1)).1)) = 0%nat.
+Proof. vm_compute. auto. Qed.
+Print Assumptions C16_sep_overdelete_refuted.
+
+(* the parents traversal of y fails: its incoming key does not parse back *)
+Theorem C16_sep_parents_refuted :
+  let s := run fixed init (sep_ops ++ [DefRel a2 s_parent y_sep]) in
+  query (cur s) y_sep [TParents] = Err EValidation.
+Proof. vm_compute. auto. Qed.
+Print Assumptions C16_sep_parents_refuted.
+
+(* with y -> a:2 stored, the legal edge a:2 -> a:1 is refused as cyclic *)
+Theorem C16_sep_false_cycle_refuted :
+  let s := run fixed init (sep_ops ++ [DefRel y_sep s_parent a2]) in
+  (step fixed s (DefRel a2 s_parent a1)).2 = ECyclic.
+Proof. vm_compute. auto. Qed.
+Print Assumptions C16_sep_false_cycle_refuted.
+
+(* with y -> a:1 stored, descendants(a:1) finds a:1 among its own children and diverges *)
+Theorem C16_sep_divergence_refuted :
+  let s := run fixed init (sep_ops ++ [DefRel y_sep s_parent a1]) in
+  descendants fixed (cur s) a1 = Err EFuel.
+Proof. vm_compute. auto. Qed.
+Print Assumptions C16_sep_divergence_refuted.
+
+(* ---- non-vacuity: a history over colliding good identifiers (a:1, a:10, ab:1, a:2) with a
+   diamond, a refused cycle, a transaction and a resource deletion meets every hypothesis ---- *)
+Definition ex_ops : list op :=
+  [DefRes a1; DefRes a10; DefRes a2; DefRes ab1;
+   DefRel a1 s_parent a10; DefRel a1 s_parent ab1; DefRel a10 s_parent a2; DefRel ab1 s_parent a2;
+   DefRel a2 s_parent a1;                     (* refused: closes a cycle *)
+   Begin; DefMany a10 s_parent [ab1]; DelRes a2; Commit].
+Example C16_nonvacuous :
+  Forall good_op ex_ops /\
+  (step fixed (run fixed init (take 8 ex_ops)) (DefRel a2 s_parent a1)).2 = ECyclic /\
+  size (o_rels (s_db (run fixed init (take 9 ex_ops)))) = 4%nat /\
+  size (o_rels (s_db (run fixed init ex_ops))) = 3%nat /\
+  descendants fixed (s_db (run fixed init (take 9 ex_ops))) a1 = Ok [a2; a10; a2; ab1].
+Proof.
+  split.
+  - apply (bool_decide_unpack _). vm_compute. exact I.
+  - vm_compute. auto.
+Qed.
